@@ -233,20 +233,20 @@ def tname (c : Chart) (ti : Nat) : String :=
 
 def takeTrans (c : Chart) (config : List Nat) (ti : Nat) (x : XS) : XS :=
   let t := tr c ti
-  let x := x.emit s!"bt:{tname c ti}"
+  let x := x.emit (.bt (tname c ti))
   let x := if t.hasContent then execBlock c config t.content x else x
-  x.emit s!"at:{tname c ti}"
+  x.emit (.at (tname c ti))
 
 /-- ENTER_STATES for one state -/
 def enterState (c : Chart) (transSet : List Nat) (e : EState) (s : Nat) : EState :=
   let S := st c s
   if S.typ.isPseudo then e
   else
-    let x := e.x.emit s!"be:{S.id}"
+    let x := e.x.emit (.be (S.id))
     let config := ins s e.config
     let configPF := pfInsert c s e.configPF
     let x := execBlocks c config S.onentry x
-    let x := x.emit s!"ae:{S.id}"
+    let x := x.emit (.ae (S.id))
     let x := S.children.foldl (fun x ch =>
       if (st c ch).typ.isPseudo then
         (st c ch).trans.foldl (fun x ti =>
@@ -276,9 +276,9 @@ def microstep (c : Chart) (e : EState) (targetSet exitS transSet : List Nat) (or
   -- EXIT_STATES
   let e := exitS.reverse.foldl (fun e s =>
     let S := st c s
-    let x := e.x.emit s!"bx:{S.id}"
+    let x := e.x.emit (.bx (S.id))
     let x := execBlocks c e.config S.onexit x
-    let x := x.emit s!"ax:{S.id}"
+    let x := x.emit (.ax (S.id))
     { e with config := e.config.filter (· != s), configPF := pfErase c s e.configPF, x := x }) e
   -- TAKE_TRANSITIONS
   let e := ((order.mergeSort (fun a b => a.1 ≤ b.1)).map (·.2)).foldl (fun e ti =>
@@ -288,8 +288,8 @@ def microstep (c : Chart) (e : EState) (targetSet exitS transSet : List Nat) (or
   let entry := entry.filter (fun s => !mem s e.config)
   -- ENTER_STATES
   let e := entry.foldl (enterState c transSet) e
-  let e := { e with x := e.x.emit "am" }
-  let e := if e.microConfigs.contains e.config then { e with x := e.x.emit "issue" } else e
+  let e := { e with x := e.x.emit .am }
+  let e := if e.microConfigs.contains e.config then { e with x := e.x.emit .issue } else e
   { e with microConfigs := e.config :: e.microConfigs }
 
 /-- SELECT_TRANSITIONS and what follows -/
@@ -300,7 +300,7 @@ def selectAndStep (c : Chart) (e : EState) (ev : Option String) : EState × Ret 
   if !sel.found then ({ e with spontaneous := false }, .microstepped)
   else
     let e := { e with spontaneous := true }
-    let e := { e with x := e.x.emit "bm" }
+    let e := { e with x := e.x.emit .bm }
     -- REMEMBER_HISTORY
     let hist := (List.range c.states.size).foldl (fun h s =>
       let S := st c s
@@ -314,25 +314,25 @@ def selectAndStep (c : Chart) (e : EState) (ev : Option String) : EState × Ret 
 def step (c : Chart) (e : EState) : EState × Ret :=
   if e.finished then (e, .finished)
   else if e.topLevelFinal then
-    let x := e.x.emit "bcomp"
+    let x := e.x.emit .bcomp
     let x := e.config.reverse.foldl (fun x s => execBlocks c e.config (st c s).onexit x) x
-    let x := x.emit "acomp"
+    let x := x.emit .acomp
     ({ e with x := x, finished := true }, .finished)
   else if e.pristine then
     let e := { e with pristine := false, spontaneous := true }
-    let e := { e with x := e.x.emit "bm" }
+    let e := { e with x := e.x.emit .bm }
     (microstep c e (st c 0).completion [] [] [], .microstepped)
   else if e.spontaneous then selectAndStep c e none
   else
     match e.x.iq with
     | ev :: rest =>
       let e := { e with x := { e.x with iq := rest } }
-      let e := { e with x := e.x.emit s!"bpe:{ev}" }
+      let e := { e with x := e.x.emit (.bpe ev) }
       selectAndStep c e (some ev)
     | [] =>
       let e := { e with invocations := e.config }
       if !e.stable then
-        ({ e with x := e.x.emit "st", microConfigs := [], stable := true }, .macrostepped)
+        ({ e with x := e.x.emit .st, microConfigs := [], stable := true }, .macrostepped)
       else
         match e.x.eq with
         | ev :: rest =>
@@ -341,7 +341,7 @@ def step (c : Chart) (e : EState) : EState × Ret :=
             -- the empty event `cancel()` enqueues to unblock
             if e.cancelled then ({ e with topLevelFinal := true }, .cancelled) else (e, .idle)
           else
-            let e := { e with x := e.x.emit s!"bpe:{ev}" }
+            let e := { e with x := e.x.emit (.bpe ev) }
             selectAndStep c e (some ev)
         | [] =>
           if e.cancelled then ({ e with topLevelFinal := true }, .cancelled) else (e, .idle)
